@@ -32,6 +32,9 @@ pub enum Case {
   Scalar { fields: u8, arms: Vec<StateArm>, args: Vec<u8>, ill: Ill, default_limit: bool, #[serde(default)] split: bool },
   /// array-pattern machines: template, initial vector, counter, variant
   Array { template: u8, xs: Vec<u8>, n: u8, variant: u8 },
+  /// machine whose input is declared with a SIZED vector kind (`[u64]:1,L` or `[u64]:L,1`), called with: 0 a matching literal, 1 the other
+  /// orientation, 2 one element too many, 3 one too few, 4 f64 elements, 5 a transposed variable of the other orientation
+  Sized { len: u8, column: bool, xs: Vec<u8>, form: u8 },
 }
 
 const FN: [&str; 3] = ["n", "a", "b"];
@@ -69,7 +72,8 @@ impl Prop for C17 {
         .prop_map(move |(arms, args, ill, split)| Case::Scalar { fields, arms, args, ill, default_limit: false, split })
     }).boxed();
     let array = (0u8..4, proptest::collection::vec(0u8..9, 1..=5), 0u8..5, 0u8..4).prop_map(|(template, xs, n, variant)| Case::Array { template, xs, n, variant }).boxed();
-    prop_oneof![5 => scalar, 2 => array].boxed()
+    let sized = (2u8..=4, any::<bool>(), proptest::collection::vec(1u8..9, 5), 0u8..6).prop_map(|(len, column, xs, form)| Case::Sized { len, column, xs, form }).boxed();
+    prop_oneof![5 => scalar, 2 => array, 1 => sized].boxed()
   }
   fn fixed_cases(_t: Tier) -> Vec<Case> {
     // one non-terminating machine run under the default transition limit
@@ -140,6 +144,13 @@ fn render(c: &Case) -> String {
       let a: Vec<String> = args.iter().enumerate().map(|(i, x)| if i == 0 && *ill == Ill::WrongArgKind { format!("{}.5", x) } else { format!("{}u64", x) }).collect();
       s.push_str(&format!("#M({})", a.join(", ")));
       s
+    }
+    Case::Sized { len, column, xs, form } => {
+      let l = *len as usize;
+      let kind = if *column { format!("[u64]:{},1", l) } else { format!("[u64]:1,{}", l) };
+      let lit = |n: usize, col: bool, f64s: bool| format!("[{}]", (0..n).map(|i| if f64s { format!("{}.0", xs[i % 5]) } else { format!("{}u64", xs[i % 5]) }).collect::<Vec<_>>().join(if col { "; " } else { " " }));
+      let (pre, arg) = match form % 6 { 0 => (String::new(), lit(l, *column, false)), 1 => (String::new(), lit(l, !*column, false)), 2 => (String::new(), lit(l + 1, *column, false)), 3 => (String::new(), lit(l - 1, *column, false)), 4 => (String::new(), lit(l, *column, true)), _ => (format!("w := {}\n", lit(l, *column, false)), "w'".to_string()) };
+      format!("{}#First(xs<{}>) => <u64>\n  ├ :Start(xs<{}>)\n  └ :Done(out<u64>).\n\n#First(xs<{}>) -> :Start(xs)\n  :Start([x ...]) -> :Done(x)\n  :Done(out) => out.\n\n#First({})", pre, kind, kind, kind, arg)
     }
     Case::Array { template, xs, n, variant } => {
       let v = format!("[{}]", xs.iter().map(|x| format!("{}u64", x)).collect::<Vec<_>>().join(" "));
@@ -241,6 +252,18 @@ fn check(c: &Case) -> Verdict {
           if seq != wseq { v.fail("C17|wrong-state-sequence", format!("expected {} observed {} (result {}):\n{}", wseq.join(">"), seq.join(">"), val.show(), src)); }
         }
         other => v.fail(format!("C17|well-formed-rejected|{}", other.class()), format!("expected {}u64 via {}, got {}:\n{}", want, wseq.join(">"), other.show(), src)),
+      }
+    }
+    Case::Sized { len, column, xs, form } => {
+      let out = Session::new().run(&src);
+      if let Outcome::NotCode | Outcome::ParseErr(_) = out { v.harness(format!("machine did not parse as code ({}):\n{}", out.show(), src)); return v; }
+      if let Outcome::Panic(m) = &out { v.fail("C17|panic-escaped", format!("{}\n{}", m, src)); return v; }
+      v.label(format!("sized-input:form{}", form % 6));
+      v.key = Some(format!("sized|{}|{}|{}", len, column, form % 6));
+      if form % 6 == 0 {
+        if !matches!(&out, Outcome::Ok(val) if *val == RVal::S(Sc::U(64, xs[0] as u128))) { v.fail("C17|sized-input-wrong", format!("expected {}u64, got {}:\n{}", xs[0], out.show(), src)); }
+      } else if out.is_ok() {
+        v.fail(format!("C17|ill-formed-accepted|sized-input|{}", ["", "other-orientation", "too-long", "too-short", "element-kind", "transposed-variable"][(*form % 6) as usize]), format!("an argument that does not have the declared kind must be rejected, got {}:\n{}", out.show(), src));
       }
     }
     Case::Array { template, xs, n, variant } => {
